@@ -670,8 +670,15 @@ def _fill_coeff(old_coeffs, old_tlist, full_tlist, args=None, tol=1.0e-10):
             if t - old_tlist[-1] > tol:
                 new_coeff[new_ind] = 0.0
                 continue
+            # Advance over every old grid point that has been reached: the
+            # old grid may repeat a time point (zero-duration pulse) or have
+            # points closer than the tolerance, which the merged grid keeps
+            # only once.
             # tol is required because of the floating-point error
-            if old_tlist[old_ind + 1] <= t + tol:
+            while (
+                old_ind + 1 < len(old_tlist)
+                and old_tlist[old_ind + 1] <= t + tol
+            ):
                 old_ind += 1
             new_coeff[new_ind] = old_coeffs[old_ind]
     else:
